@@ -47,6 +47,7 @@ class Contract(object):
         # function is compared with is DEFINED as that function's own result (representative choice); `ensures` is then the
         # defining equation, proved with the recursive calls replaced by the spec function (structural induction, meta-step)
         self.call_ensures = kw.pop("call_ensures", None)
+        self.verify_only = kw.pop("verify_only", False)   # verified against this contract, but call sites resolve to another declaration
         self.empties = kw.pop("empties", {})             # 'set'/'list'/'dict' -> type of untyped empty displays                    # clause -> known-finding condition
         if kw:
             raise TypeError("unknown contract keys: %s" % sorted(kw))
